@@ -7,9 +7,9 @@ cd $wt || exit 1
 git diff > $dst/patch.diff
 [ -s $dst/patch.diff ] || { echo "empty patch"; exit 1; }
 (go test -vet=off -count=1 ./... && cd cmd/hranoprovod-cli && go test -vet=off -count=1 ./...) > $dst/.tests.log 2>&1; t=$?
-(cd $wt && timeout 900 sh $demo) > $dst/.demo_with.log 2>&1; w=$?
+(cd $wt && timeout 900 bash $demo) > $dst/.demo_with.log 2>&1; w=$?
 # (no git stash: refs/stash is shared by all worktrees of a repository)
-git apply -R $dst/patch.diff; (cd $wt && timeout 900 sh $demo) > $dst/.demo_without.log 2>&1; wo=$?; git apply $dst/patch.diff
+git apply -R $dst/patch.diff; (cd $wt && timeout 900 bash $demo) > $dst/.demo_without.log 2>&1; wo=$?; git apply $dst/patch.diff
 rm -rf $dst/demo; cp -r _demo $dst/demo
 echo "tests_with_change_exit=$t demo_with_change_exit=$w demo_without_change_exit=$wo"
 tail -3 $dst/.demo_with.log | cut -c1-300
